@@ -2,6 +2,7 @@
 From Coq Require Import List ZArith Bool Lia.
 From Slock Require Import Queue.SegQueue Queue.ListLemmas Queue.SegQueueInv Queue.SegQueueOps Queue.SegQueueRefine.
 From Slock Require Import Queue.KeyQueues Queue.KeyQueuesProofs Queue.KeyWaitLockProofs.
+From Slock Require Import Queue.SegQueueFrame Queue.LongWait Queue.LongWaitProofs.
 Import ListNotations.
 Open Scope Z_scope.
 
@@ -115,6 +116,22 @@ Proof. exact wq_repush_abs. Qed.
 Goal True. idtac "ASSUMPTIONS-OF C20_wait_queue_repush_stable_sort". Abort.
 Print Assumptions C20_wait_queue_repush_stable_sort.
 
+(* the same switch stated for the MIXED representation explicitly: a non-empty inline part fastQueue[fastIndex:]
+   followed by a plain ring (the inline array overflowed at its maximal capacity full of live waiters).  Both parts are
+   carried into the priority ring, the ring part after the inline part; Len afterwards is the sum of the two lengths
+   (nothing lost, nothing duplicated).  (C20_wait_queue_repush_stable_sort above already quantifies over every
+   plain-mode state: wq_abs = inline part ++ ring part.) *)
+Theorem C20_wait_queue_repush_mixed : forall (pf : N -> N) (st : store) (q : wq) (s : slice) (r : ring),
+  (forall j, prio_of st j = pf j) -> wq_inv pf q ->
+  w_fast q = Some s -> w_ring q = RPlain r -> 0 <= w_findex q < Z.of_nat (length (s_data s)) ->
+  Forall is_some (skipn (Z.to_nat (w_findex q)) (s_data s)) -> Forall is_some (ring_abs r) ->
+  exists q' p, wq_repush st q = Ok q' /\ w_ring q' = RPrio p /\ w_findex q' = -1 /\ wq_inv pf q' /\
+    wq_abs q' = spec_sort pf (skipn (Z.to_nat (w_findex q)) (s_data s) ++ ring_abs r) /\
+    wq_len q' = Z.of_nat (length (skipn (Z.to_nat (w_findex q)) (s_data s))) + Z.of_nat (length (ring_abs r)).
+Proof. exact wq_repush_mixed. Qed.
+Goal True. idtac "ASSUMPTIONS-OF C20_wait_queue_repush_mixed". Abort.
+Print Assumptions C20_wait_queue_repush_mixed.
+
 Theorem C20_wait_queue_push_priority : forall (pf : N -> N) (st : store) (q : wq) (p : prq) (i : N),
   (forall j, prio_of st j = pf j) -> wq_inv pf q -> w_ring q = RPrio p ->
   exists q', wq_push st q (Some i) = Ok (q', st) /\ wq_inv pf q' /\ (exists p', w_ring q' = RPrio p') /\
@@ -151,6 +168,83 @@ Qed.
 Goal True. idtac "ASSUMPTIONS-OF C20_lock_queue_pop". Abort.
 Print Assumptions C20_lock_queue_pop.
 
+(* ===== long-wait tables of server/db.go: LongWaitLockQueue / LongWaitLockFreeQueue ===== *)
+
+(* constructor: for ALL parameters the invariant holds, the queue is an empty sequence and both counters are 0 *)
+Theorem C20_longwait_new : forall (st : istore) (base nodes size time : Z),
+  1 <= base -> 1 <= nodes -> nodes + 1 < P31 -> 1 <= size < POW30 ->
+  exists l, lw_new base nodes size time = Ok l /\ LWInv st l /\ lw_abs l = [] /\ lw_count l = 0 /\ lw_free l = 0 /\
+            lw_time l = time /\ baseQueueSize (lw_locks l) = size /\ Z.of_nat (length (queues (lw_locks l))) = nodes.
+Proof. exact lw_new_spec. Qed.
+Goal True. idtac "ASSUMPTIONS-OF C20_longwait_new". Abort.
+Print Assumptions C20_longwait_new.
+
+(* every operation (Push, Remove in place, Remove + the restructure trigger of RemoveLongTimeOut/RemoveLongExpried, Pop,
+   Len, restructuring, the consumer idiom) preserves the invariant, never panics and returns / leaves exactly what the
+   plain sequence with deletions `spec_step` does: the slot list (holes included), lockCount and freeCount *)
+Theorem C20_longwait_step_refines : forall (st : istore) (l : lwq) (o : lop),
+  LWInv st l -> wf_op (lw_abs l) o -> lw_guard l ->
+  exists l' st', lw_step st l o = Ok (l', st', snd (spec_step (lw_rel l) o)) /\ LWInv st' l' /\
+                 lw_rel l' = fst (spec_step (lw_rel l) o) /\ lw_time l' = lw_time l.
+Proof. exact lw_step_refines. Qed.
+Goal True. idtac "ASSUMPTIONS-OF C20_longwait_step_refines". Abort.
+Print Assumptions C20_longwait_step_refines.
+
+(* ALL operation lists, ALL constructor parameters: the observations of a LongWaitLockQueue are exactly those of the
+   plain sequence with deletions started empty; the run ends normally.  Side conditions (lw_okrun): the callers' contract
+   (push only a lock that is not queued, remove only a queued lock) and the int32 guards (fewer than 2^31 - 1 nodes,
+   baseQueueSize << tailNodeIndex < 2^31 when restructuring). *)
+Theorem C20_longwait_refines_sequence : forall (base nodes size : Z) (ops : list lop),
+  1 <= base -> 1 <= nodes -> nodes + 1 < P31 -> 1 <= size < POW30 ->
+  (forall l, lw_new base nodes size 0 = Ok l -> lw_okrun (fun _ => 0) l ops) ->
+  lw_run_new base nodes size ops = (spec_run ([], 0, 0) ops, EDone).
+Proof. exact lw_new_run_refines. Qed.
+Goal True. idtac "ASSUMPTIONS-OF C20_longwait_refines_sequence". Abort.
+Print Assumptions C20_longwait_refines_sequence.
+
+(* what Len reports, exactly: the number of slots INCLUDING the holes left by Remove and not yet compacted (not the number
+   of live locks); the number of live locks is lockCount - freeCount (used by admin.go) *)
+Theorem C20_longwait_len_counts_slots : forall (st : istore) (l : lwq), LWInv st l ->
+  lw_len l = Ok (Z.of_nat (length (lw_abs l))) /\
+  lw_count l - lw_free l = Z.of_nat (length (ids (lw_abs l))).
+Proof. exact lw_len_counts_slots. Qed.
+Goal True. idtac "ASSUMPTIONS-OF C20_longwait_len_counts_slots". Abort.
+Print Assumptions C20_longwait_len_counts_slots.
+
+(* what the consumers (checkTimeTimeOut, checkTimeExpried, flushTimeOut, flushExpried) rely on: "n := Len(); n times
+   Pop(), skipping nil" returns exactly the live locks in insertion order and leaves the queue empty *)
+Theorem C20_longwait_consume_complete : forall (st : istore) (l : lwq), LWInv st l ->
+  exists n l' st', lw_len l = Ok n /\ consume (Z.to_nat n) st l [] = Ok (l', st', ids (lw_abs l)) /\ lw_abs l' = [] /\ LWInv st' l'.
+Proof. exact lw_consume_complete. Qed.
+Goal True. idtac "ASSUMPTIONS-OF C20_longwait_consume_complete". Abort.
+Print Assumptions C20_longwait_consume_complete.
+
+(* concrete instance (production parameters): three pushes, one Remove: Len() = 3 although 2 locks are live
+   (lockCount 3, freeCount 1), and Len() times Pop() returns both survivors *)
+Theorem C20_longwait_len_counts_holes_example :
+  lw_run_new 4 64 256 [LPush 1%N; LPush 2%N; LPush 3%N; LRemove 1%N; LLen; LConsume] =
+    ([LUnit; LUnit; LUnit; LUnit; LLens 3 3 1; LList [2%N; 3%N]], EDone).
+Proof. exact lw_len_counts_holes_example. Qed.
+Goal True. idtac "ASSUMPTIONS-OF C20_longwait_len_counts_holes_example". Abort.
+Print Assumptions C20_longwait_len_counts_holes_example.
+
+(* LongWaitLockFreeQueue is a LIFO stack of released queues with a fixed capacity: Get pops the most recently released
+   queue (counters reset, new bucket time) or builds a fresh (4, 64, 256) one when empty; Free pushes the Reset queue
+   while there is room and drops it otherwise; Pop drops the top; Len is the height *)
+Theorem C20_longwait_free_queue_lifo : forall (f : lwfree) (s : list lwq) (top l : lwq) (t now : Z) (q' : sq),
+  (fq_rep f (s ++ [top]) -> exists f', fq_get f t = Ok (f', mkLW (lw_locks top) t 0 0) /\ fq_rep f' s) /\
+  (fq_rep f [] -> fq_get f t = (l0 <- lw_new 4 64 LONG_LOCKS_QUEUE_INIT_SIZE t ;; Ok (f, l0))) /\
+  (fq_rep f s -> Reset (lw_locks l) = Ok q' ->
+     if Z.of_nat (length s) <=? fq_max f
+     then exists f', fq_free f l now = Ok f' /\ fq_rep f' (s ++ [mkLW q' now (-1) (-1)])
+     else fq_free f l now = Ok f) /\
+  (fq_rep f s -> fq_len f = Z.of_nat (length s)).
+Proof.
+  intros f s top l t now q'. split; [apply fq_get_top|]. split; [apply fq_get_empty|]. split; [apply fq_free_rep | apply fq_len_rep].
+Qed.
+Goal True. idtac "ASSUMPTIONS-OF C20_longwait_free_queue_lifo". Abort.
+Print Assumptions C20_longwait_free_queue_lifo.
+
 (* non-vacuity: the hypotheses are satisfiable by concrete states *)
 Example C20_nonvacuous_seg : exists q, new 4 16 4096 = Ok q /\ Inv q.
 Proof. destruct (new_spec 4 16 4096) as (q & E & I & _); try (unfold POW30; lia). eauto. Qed.
@@ -158,3 +252,20 @@ Example C20_nonvacuous_covered : forallb covered [OpPush (Some 1%N); OpPushLeft 
 Proof. reflexivity. Qed.
 Example C20_nonvacuous_ring : ring_inv (ring_new 4).
 Proof. apply ring_new_abs. Qed.
+(* a concrete MIXED wait queue: two waiters still in the inline array, one in the ring *)
+Example C20_nonvacuous_mixed_wait_queue :
+  let r := ring_push (ring_new 64) (Some 3%N) in
+  let q := mkWq (Some (mkSlice [Some 1%N; Some 2%N] 143)) 0 (RPlain r) in
+  wq_inv (fun _ => 0%N) q /\ w_fast q = Some (mkSlice [Some 1%N; Some 2%N] 143) /\ w_ring q = RPlain r /\
+  0 <= w_findex q < 2 /\ Forall is_some [Some 1%N; Some 2%N] /\ Forall is_some (ring_abs r).
+Proof.
+  cbv zeta. destruct (ring_push_abs (ring_new 64) (Some 3%N) (proj2 (ring_new_abs 64))) as [A I].
+  split; [split; [cbn; lia|exact I]|]. split; [reflexivity|]. split; [reflexivity|]. split; [cbn; lia|].
+  split; [repeat constructor; eexists; reflexivity|]. rewrite A, (proj1 (ring_new_abs 64)). repeat constructor. eexists; reflexivity.
+Qed.
+(* a concrete long-wait run satisfying the side conditions (smallest nodes: 1, 2, 4 slots; trigger, restructure, consume) *)
+Example C20_nonvacuous_longwait : forall l, lw_new 1 1 1 0 = Ok l ->
+  lw_okrun (fun _ => 0) l [LPush 1%N; LPush 2%N; LPush 3%N; LPush 4%N; LRemovePolicy 2%N; LLen; LRemove 3%N; LPop; LRestructure; LLen; LConsume].
+Proof. exact lw_okrun_nonvacuous. Qed.
+Example C20_nonvacuous_free_queue : fq_rep (fq_new 8096) [].
+Proof. apply fq_new_rep. lia. Qed.
